@@ -24,7 +24,9 @@
                           idempotent;
   * `C02_purge_readonly` — a successful purge of readonly fields removes exactly
                           the items of fields whose `readonly` is truthy, keeps
-                          the order, and met no unresolved rules reference.
+                          the order, and met no unresolved rules reference;
+  * `C02_readonly_check_normalized` — a child that inherits an already
+                          normalized document files no readonly error.
 -/
 import Cerberus.Model.Normalize
 namespace Cerberus
@@ -236,6 +238,26 @@ theorem C02_purge_readonly (rs : RSchema) (m out : List (Key × Val))
   · intro kv hkv hr
     obtain ⟨b, hb⟩ := h4 kv hkv
     simp [hr, raisePy] at hb
+
+/-- **readonly check after normalization**: in a child that inherits a document
+    which has already been normalized (`_is_normalized`), the readonly pass files
+    nothing — whatever the schema says — as long as no present field's rules are an
+    unresolved reference -/
+theorem C02_readonly_check_normalized (env : Env) (ctx : Ctx) (schema : Val) (m : List (Key × Val))
+    (hn : ctx.cfg.isNormalized = true) :
+    ∀ (rs : RSchema), (∀ f, (f, none) ∈ rs → Val.dhas m f = false) →
+      readonlyCheck env ctx schema m rs = .ok []
+  | [], _ => by simp [readonlyCheck, pure, Except.pure]
+  | (f, r) :: rest, h => by
+    have ih := C02_readonly_check_normalized env ctx schema m hn rest
+      (fun g hg => h g (List.mem_cons_of_mem _ hg))
+    cases r with
+    | none =>
+      have hf : Val.dhas m f = false := h f List.mem_cons_self
+      simp [readonlyCheck, hf, ih, bind, Except.bind, pure, Except.pure]
+    | some rules =>
+      cases hd : Val.dhas m f <;>
+        simp [readonlyCheck, hd, hn, ih, bind, Except.bind, pure, Except.pure]
 
 /-! ### non-vacuity: a two-member chain whose first member raises -/
 def C02_env : Env :=
